@@ -588,6 +588,7 @@ def cells_for(run, mode, tier, seed=0):
         hs += float_identities(run, arms)
     if mode in ("c01", "c02"):
         hs += int_arith_cells(run, arms, mode)
+        hs += string_cells(run, arms, mode)
     run.functions_encoded.update(sorted({h.meta.get("function") for h in hs if h.meta.get("function")}))
     return arms, hs
 
@@ -876,4 +877,77 @@ def partialeq_cells(mode):
             h.spec = Spec("", quick=True)
             h.variant, h.tags = "ValueEq", (ta, tb)
             hs.append(h)
+    return hs
+
+
+def string_cells(run, arms, mode):
+    """String operands WITH contents (the table cells above use the empty string only): the cast functions on every 1- and
+    2-byte ASCII string (symbolic bytes) and on selected concrete strings with multi-byte characters (where byte offsets and
+    character boundaries differ); case mapping / trim on concrete samples. C01: no panic, a value or the cast error;
+    C02: digits denote their number, everything that is not a number is an invalid cast."""
+    hs = []
+
+    def add(name, body, unwind=8, heavy=False, meta=None, variant="Int"):
+        h = Harness(f"{mode}_{name}", body, unwind=unwind, heavy=heavy, mandatory=not heavy, meta=meta or {})
+        h.variant, h.tags, h.spec = variant, ("String",), Spec("", quick=True, heavy=heavy)
+        hs.append(h)
+
+    samples = ["12", "-7", "1\u20ac", "a\u00e9b", "\u20ac", "\U0001F60042", "0x1f", " 7", "1.5", "1e3", "NaN", "inf", "2015-07-30T03:26:13Z"]
+    expect_int = {"12": "ok_int(&r, 12)", "-7": "ok_int(&r, -7)"}
+    expect_float = {"12": "ok_float(&r, 12.0)", "-7": "ok_float(&r, -7.0)", "1.5": "ok_float(&r, 1.5)", "1e3": "ok_float(&r, 1000.0)"}
+    expect_dec = {"12": "matches!(&r, Ok(Value::Decimal(x)) if x.mantissa() == 12 && x.scale() == 0)",
+                  "1.5": "matches!(&r, Ok(Value::Decimal(x)) if x.mantissa() == 15 && x.scale() == 1)"}
+    for variant, exp_tab in (("Int", expect_int), ("Float", expect_float), ("Dec", expect_dec), ("DateTime", {})):
+        arm = arms[variant]
+        for i, sv in enumerate(samples):
+            lit = "\"" + sv.encode("unicode_escape").decode().replace("\\U0001f600", "\\u{1F600}").replace("\\u20ac", "\\u{20ac}").replace("\\xe9", "\\u{e9}") + "\""
+            callx = apply(arm, [f"Value::String(String::from({lit}))"])
+            if mode == "c02":
+                numberish = sv in ("12", "-7", "1.5", "1e3", "NaN", "inf") or (variant == "DateTime" and sv.startswith("2015"))
+                exp = exp_tab.get(sv) or ("(matches!(&r, Ok(_)) || err_cast(&r))" if numberish else "err_cast(&r)")
+            else:
+                exp = "(matches!(&r, Ok(_)) || is_err(&r))"
+            add(f"{variant}_String_sample{i}", f"""
+        let r = {callx};
+        show("input", &{lit}); show("result", &r);
+        assert!({exp});
+        std::mem::forget(r);""", unwind=26, heavy=(variant == "DateTime"),
+                meta={"node": variant, "operand": f"the string {sv!r} (concrete)", "expect": exp}, variant=variant)
+        if variant != "Int":
+            continue    # symbolic strings through the float / decimal parsers: no verdict in 360 s (measured); integers only
+        for n in (1, 2):
+            decl = "".join(f"let b{k} = inp.u8(); assume(b{k} < 128); " for k in range(n))
+            push = "".join(f"sv.push(b{k} as char); " for k in range(n))
+            callx = apply(arm, ["Value::String(sv)"])
+            if mode == "c02" and variant == "Int" and n == 1:
+                exp = "if b0 >= b'0' && b0 <= b'9' { ok_int(&r, (b0 - b'0') as i128) } else { err_cast(&r) }"
+            elif mode == "c02" and variant == "Int" and n == 2:
+                exp = ("if b0 >= b'0' && b0 <= b'9' && b1 >= b'0' && b1 <= b'9' { ok_int(&r, ((b0 - b'0') * 10 + (b1 - b'0')) as i128) } "
+                       "else if (b0 == b'-' || b0 == b'+') && b1 >= b'0' && b1 <= b'9' { ok_int(&r, if b0 == b'-' { -((b1 - b'0') as i128) } else { (b1 - b'0') as i128 }) } "
+                       "else { err_cast(&r) }")
+            else:
+                exp = "(matches!(&r, Ok(_)) || err_cast(&r))" if mode == "c02" else "(matches!(&r, Ok(_)) || is_err(&r))"
+            add(f"{variant}_String_ascii{n}", f"""
+        {decl}
+        let mut sv = String::new(); {push}
+        let r = {callx};
+        show("result", &r);
+        assert!({exp});
+        std::mem::forget(r);""", unwind=n + 8, heavy=True,
+                meta={"node": variant, "operand": f"every ASCII string of {n} byte(s)", "expect": exp[:200]}, variant=variant)
+    # case mapping and trim on concrete samples (multi-byte characters, characters whose case mapping changes the byte length)
+    for variant, pairs in (("UpperCase", [("a\u00e9", "A\u00c9"), ("stra\u00dfe", "STRASSE"), ("", "")]),
+                           ("LowerCase", [("A\u00c9", "a\u00e9"), ("\u0130", "i\u0307")]),
+                           ("Trim", [(" a\u00e9 \t", "a\u00e9"), ("\u2003x\u2003", "x")])):
+        arm = arms[variant]
+        for i, (src, want) in enumerate(pairs):
+            lit = lambda t: "\"" + "".join(c if 32 <= ord(c) < 127 and c not in "\"\\" else "\\u{%x}" % ord(c) for c in t) + "\""
+            callx = apply(arm, [f"Value::String(String::from({lit(src)}))"])
+            exp = f"matches!(&r, Ok(Value::String(x)) if x.as_bytes() == {lit(want)}.as_bytes())" if mode == "c02" else "matches!(&r, Ok(Value::String(_)))"
+            add(f"{variant}_String_sample{i}", f"""
+        let r = {callx};
+        show("result", &r);
+        assert!({exp});
+        std::mem::forget(r);""", unwind=24, heavy=True,
+                meta={"node": variant, "operand": f"the string {src!r} (concrete)", "expect": f"{want!r}"}, variant=variant)
     return hs
